@@ -282,14 +282,16 @@ def unit_demodulate_rac(eng, tier="quick"):
 def unit_bounded_paths(eng):
     """bounded stand-in for devices.resolve_relative_path (os.path is the stdlib's): a relative path is taken from the directory of the
     including source file, an absolute one is used as written - against an independent few-line reference"""
-    rels = ["out.bin", "sub/x.raw", "./a", "../up.bin", "a/../b", "/abs/x.bin", "/", "x//y", "dir/", "\u0444.bin", "a b.wav"]
+    rels = ["out.bin", "sub/x.raw", "./a", "../up.bin", "a/../b", "/abs/x.bin", "/", "x//y", "dir/", "\u0444.bin", "a b.wav",
+            # absolute paths that are not in normal form name the same file as their normal form
+            "/d/sub/../x.bin", "/d//x", "/d/./x.wav", "/a/b/c/../../y", "/./z"]
     bases = ["/src/prog.mac", "prog.mac", "dir/prog.mac", "/a/b/../c/p.mac", "./p.mac"]
     code = "from pdpy11.devices import resolve_relative_path\nresult = [[r, b, resolve_relative_path(r, b)] for r in %r for b in %r]\n" % (rels, bases)
     res = driver.native([{"kind": "py", "code": code}], driver.tree_root())[0]
 
     def ref(rel, base):
         if rel.startswith("/"):
-            return rel
+            base, absolute_rel = "/", True
         parts = [] if "/" not in base else base.rsplit("/", 1)[0].split("/")
         absolute = base.startswith("/")
         out = []
